@@ -126,6 +126,8 @@ func (sc *scene) classify(c *Call) {
 		}
 	case "mkdir", "mkdirat":
 		kind = "mkdir"
+	case "stat", "lstat", "newfstatat", "statx", "access", "faccessat", "faccessat2", "readlink", "readlinkat":
+		kind = "stat" // (vtrace --with-stat) inspects only: a pause point, nothing more
 	case "fdatasync":
 		kind = "fsync"
 	}
